@@ -13,7 +13,7 @@ pub fn check() -> Check {
     Check {
         id: "C04",
         level: "exploration",
-        rule: "locks: seeded programs of 2-4 threads over 1-2 Mutexes and an RwLock (blocking and try variants, re-entrant try attempts, guards released in any order) under SimSched; oracle: lockstep reference model + holder-count monitors kept by the interpreter. poison: a holder panics inside a critical section (caught) and later lockers must see the poison flag, still exclusively. atomics: 2-3 threads x 1-5 operations on one typed atomic (all 10 integer types and bool; load/store/swap/compare_exchange(_weak)/fetch_add/sub/and/nand/or/xor/max/min/fetch_update, operands biased to 0, 1, MIN, MAX, every ordering std accepts); oracle: the same operations replayed in the run's step order on std::sync::atomic of the same type must return the same values (differential, the reference is std itself). Distinct = (program, chosen sequence); non-trivial = at least one switch",
+        rule: "locks: seeded programs of 2-4 threads over 1-2 Mutexes and an RwLock (blocking and try variants, re-entrant try attempts, guards released in any order) under SimSched; oracle: lockstep reference model + holder-count monitors kept by the interpreter. poison: a holder panics inside a critical section (caught) and later lockers must see the poison flag, still exclusively. atomics: 2-3 threads x 1-5 operations on one typed atomic (all 10 integer types and bool; load/store/swap/compare_exchange(_weak)/compare_and_swap/fetch_add/sub/and/nand/or/xor/max/min/fetch_update, operands biased to 0, 1, MIN, MAX, every ordering std accepts); oracle: the same operations replayed in the run's step order on std::sync::atomic of the same type must return the same values (differential, the reference is std itself). Distinct = (program, chosen sequence); non-trivial = at least one switch",
         assumptions: &["relaxed-memory behaviours are out of scope (Shuttle documents SC only)", "after poisoning, other tasks do not run while the panicking task unwinds (known finding F4 covers that window)"],
         real_components: "real: shuttle-std Mutex/RwLock/atomics, shuttle-engine BatchSemaphore and runtime; reference for atomics: std::sync::atomic; model (locks) only as oracle",
         batches: |t: Tier| vec![Batch::new("locks", t.pick(16000, 300000), 400), Batch::new("poison", t.pick(2000, 30000), 200), Batch::new("known", t.pick(40, 200), 20), Batch::new("atomics", t.pick(12000, 250000), 400)],
@@ -83,6 +83,8 @@ pub enum AKind {
     Swap,
     Cas,
     CasWeak,
+    /// the deprecated `compare_and_swap` (returns the previous value)
+    CasOld,
     Add,
     Sub,
     And,
@@ -148,6 +150,8 @@ macro_rules! int_impl {
                 AKind::Swap => format!("{}", a.swap(x, ord_rmw(op.ord))),
                 AKind::Cas => format!("{:?}", a.compare_exchange(x, y, ord_rmw(op.ord), ord_load(op.ord))),
                 AKind::CasWeak => format!("{:?}", a.compare_exchange_weak(x, y, ord_rmw(op.ord), ord_load(op.ord))),
+                #[allow(deprecated)]
+                AKind::CasOld => format!("{}", a.compare_and_swap(x, y, ord_load(op.ord))),
                 AKind::Add => format!("{}", a.fetch_add(x, ord_rmw(op.ord))),
                 AKind::Sub => format!("{}", a.fetch_sub(x, ord_rmw(op.ord))),
                 AKind::And => format!("{}", a.fetch_and(x, ord_rmw(op.ord))),
@@ -179,6 +183,8 @@ macro_rules! bool_impl {
                 AKind::Swap | AKind::Add | AKind::Sub => format!("{}", a.swap(x, ord_rmw(op.ord))),
                 AKind::Cas => format!("{:?}", a.compare_exchange(x, y, ord_rmw(op.ord), ord_load(op.ord))),
                 AKind::CasWeak => format!("{:?}", a.compare_exchange_weak(x, y, ord_rmw(op.ord), ord_load(op.ord))),
+                #[allow(deprecated)]
+                AKind::CasOld => format!("{}", a.compare_and_swap(x, y, ord_load(op.ord))),
                 AKind::And => format!("{}", a.fetch_and(x, ord_rmw(op.ord))),
                 AKind::Nand => format!("{}", a.fetch_nand(x, ord_rmw(op.ord))),
                 AKind::Or => format!("{}", a.fetch_or(x, ord_rmw(op.ord))),
@@ -259,7 +265,8 @@ fn gen_atomic_case(rng: &mut Rng) -> ACase {
     for _ in 0..nt {
         let mut ops = vec![];
         for _ in 0..rng.range(1, 5) {
-            let kind = match rng.below(14) {
+            let kind = match rng.below(15) {
+                14 => AKind::CasOld,
                 0 => AKind::Load,
                 1 => AKind::Store,
                 2 => AKind::Swap,
